@@ -613,7 +613,10 @@ Inductive case :=
          (written : list N) (aux_in : list N) (aux_out : option (list N)) (impl : outcome)
 (* a tensor too large to materialise (broadcast view): header + byte count written by
    npy::write, outcome of reading it back from header ++ zeros *)
-| CBig (dbg : bool) (d : dtype) (shape : list N) (written_header : list N) (written_len : N) (impl : outcome).
+| CBig (dbg : bool) (d : dtype) (shape : list N) (written_header : list N) (written_len : N) (impl : outcome)
+(* npz::read / safetensors::read on arbitrary bytes: archive and JSON parsing are third-party
+   (not modelled); only the outcome class is recorded: 0 Ok, 1 Err, 2 Panic, 3 Timeout *)
+| CReadOther (dbg : bool) (f : fmt) (cls : N).
 
 Definition model_big (d : dtype) (shape : list N) (hdr : list N) : outcome :=
   match read_header hdr with
@@ -655,6 +658,7 @@ Definition agree (c : case) : bool :=
                 end
       | _ => false
       end
+  | CReadOther _ _ _ => true
   end.
 
 (* the implementation's own outcome satisfies the property: arbitrary bytes give a value or
@@ -663,12 +667,17 @@ Definition prop_ok (c : case) : bool :=
   match c with
   | CRead _ _ impl => match impl with ROk _ _ _ | RErr _ => true | _ => false end
   | CRound _ f d shape elems _ aux_in aux_out impl =>
-      (match f, aux_in with
-       | FNpz, [] => true                (* empty array name: write must refuse *)
-       | _, _ => outcome_eqb impl (ROk d shape elems)
+      (match f with
+       | FNpz =>
+           (* an array name with an empty base ("" or ".npy") is refused by npz::write *)
+           if list_eqb aux_in [] || list_eqb aux_in NPY_SUFFIX
+           then match impl with RErr _ => true | _ => false end
+           else outcome_eqb impl (ROk d shape elems)
+       | _ => outcome_eqb impl (ROk d shape elems)
        end)
   | CBig _ d shape _ _ impl =>
       match impl with ROk d' s' _ => dtype_eqb d d' && list_eqb shape s' | _ => false end
+  | CReadOther _ _ cls => cls <? 2
   end.
 
 Definition show (c : case) :=
@@ -676,4 +685,5 @@ Definition show (c : case) :=
   | CRead dbg bytes _ => (read dbg bytes, @None (res (list N)))
   | CRound dbg f d shape elems written _ _ _ => (read dbg written, Some (write d shape elems))
   | CBig dbg d shape hdr _ _ => (model_big d shape hdr, Some (build_header d shape))
+  | CReadOther _ _ _ => (RErr EOther, None)
   end.
